@@ -175,7 +175,8 @@ def run(rep: Report, prog: Program, tier: str) -> None:
         if p.exit[0] != "return":
             continue
         r = p.exit[1]
-        has_rem = any(a == ("cmp", "is", rem, ("const", None)) and not pol for a, pol, _ in p.conds)
+        # remaining_s may be given unless this path established `remaining_s is None`
+        has_rem = not any(a == ("cmp", "is", rem, ("const", None)) and pol for a, pol, _ in p.conds)
         raw_terms = [e.result for e in p.calls() if e.callback() == "strategy"]
         hint = ("attr", ("attr", ctx, "classification"), "retry_after_s")
         rep.instance("R18.2", "retry_after_or|" + "|".join(p.describe()[-3:])[:120])
@@ -184,7 +185,7 @@ def run(rep: Report, prog: Program, tier: str) -> None:
         if lc is None or lc < 0:
             problem = f"result {show(r)} not bounded below by 0"
         if has_rem and rem not in upper_bounds(r):
-            problem = problem or f"remaining_s is given but does not bound the result {show(r)}"
+            problem = problem or f"remaining_s may be given on this path but does not bound the result {show(r)}"
         # finiteness: every unbounded source inside the result is dominated by an isfinite(...) == True literal
         fin_true = [a[2][0] for a, pol, _ in p.conds if a[0] == "pure" and a[1] == "math.isfinite" and pol]
         for src in raw_terms + [hint]:
